@@ -5,8 +5,10 @@ pub mod engine;
 pub mod gens;
 pub mod props;
 pub mod refwire;
+pub mod w_keys;
 pub mod w_server;
 pub mod w_source;
+pub mod w_srv;
 pub mod rt;
 
 pub use engine::{Entry, entry};
